@@ -499,7 +499,8 @@ func (obj *Flavor) LoadForm() slip.Object {
 	for i, k := range keys {
 		ksym := slip.Symbol(k)
 		if v := obj.defaultVars[k]; v != nil {
-			ivs[i] = slip.List{ksym, v}
+			// The default is a value, defflavor evaluates the form it finds.
+			ivs[i] = slip.List{ksym, slip.ValueLoadForm(v)}
 		} else {
 			ivs[i] = ksym
 		}
